@@ -4,8 +4,8 @@ import random
 
 import numpy as np
 
-from ticcmon import instrument
-from ticcmon.checks import common
+from ticcmon import e2e_check, instrument
+from ticcmon.checks import common, e2e_common as ec
 from ticcmon.oracles import repop
 
 LEVEL = "exploration"
@@ -17,8 +17,11 @@ ASSUMPTIONS = ["reference: order-free sequential model (capacity floor(s/m)-1 fo
 SHARD_TIMEOUT = {"quick": 600, "thorough": 3000}
 
 
+E2E_MIX = {"single:repop": 5, "single:small": 2, "single:empty_final": 2, "joint:repop": 1}
+
+
 def plan(tier, seed):
-    specs = []
+    specs = ec.plan_e2e(seed, 808, E2E_MIX, 60 if tier == "quick" else 800, nwcap=8 if tier == "quick" else 16)
     parts = 14
     Kmax = 4 if tier == "quick" else 5
     for p in range(parts):
@@ -154,6 +157,10 @@ def run_random(spec, res):
             else:
                 sizes.append(int(rng.integers(2 * m, min(400, 6 * m) + 1)))
         spreads = [float(v) for v in rng.choice([0.5, 1.0, 1.0, 2.0, 3.0, 7.5], size=K)]
+        if i % 3 == 0:
+            # spreads that differ only in their fractional part (norms 2.x or 0.x): an integer-typed ranking key cannot order them
+            base = float(rng.choice([0.0, 2.0, 5.0]))
+            spreads = [float((base + u) / np.sqrt(2.0)) for u in rng.uniform(0.05, 0.95, size=K)]
         # no NaN spreads: a NaN computed covariance has no place in an ordering (sorted() with NaN keys is
         # arbitrary), so "decreasing covariance spread" is undefined for it - outside the quantifier.
         case = dict(what="random", sizes=sizes, m=m, spreads=spreads, pyseed=int(rng.integers(0, 20)),
@@ -164,6 +171,10 @@ def run_random(spec, res):
 
 
 def run_shard(spec, res):
+    if spec["what"] in ("e2e", "fixture"):
+        # every repopulation call the real main loop makes (states that went through relabelling, copies, several rounds)
+        ec.run_e2e_shard(spec, res, ("C08",), lambda run, I: "r" if I.counts.get("repop_events", 0) else None, coverage_props=())
+        return
     if spec["what"] == "grid":
         run_grid(spec, res)
     else:
@@ -171,6 +182,9 @@ def run_shard(spec, res):
 
 
 def replay(case, res):
+    if case.get("front"):
+        e2e_check.replay_case(res, case, ("C08",))
+        return
     from fast_ticc import cluster_maintenance as cm
     run_case(res, cm, case)
 
@@ -178,7 +192,7 @@ def replay(case, res):
 def finalize(merged, tier):
     c = merged["counters"]
     out = {"inconclusive": []}
-    for key, least in (("refills", 1000), ("raised", 100), ("calls_with_donor_choice", 500), ("calls_where_a_donor_can_serve_twice", 100)):
+    for key, least in (("repop_events", 15 if tier == "quick" else 200), ("refills", 1000), ("raised", 100), ("calls_with_donor_choice", 500), ("calls_where_a_donor_can_serve_twice", 100)):
         if c.get(key, 0) < least:
             out["inconclusive"].append("monitor counter %s=%d below %d" % (key, c.get(key, 0), least))
     out["exhaustive_subspace"] = "all size vectors K<=%d, sizes 0..3m+2, m in {1,2,3} (spread patterns and seeds rotate)" % (4 if tier == "quick" else 5)
